@@ -22,6 +22,7 @@ def clone(d, module, **changes):
     n.where = list(d.where)
     n.module = module
     n.origin = d
+    n.order = list(d.order) if d.order else None
     for k, v in changes.items():
         setattr(n, k, v)
     return n
@@ -77,6 +78,8 @@ def mutants_of(d, idx):
                       for v in n.variants]
         n.where = [w.replace(old + ':', new + ':') for w in n.where]
         n.param_map = {old: new}
+        if n.order:
+            n.order = [new if x == old else x for x in n.order]
         out.append(('param-rename', True, n))
     # type name
     out.append(('type-name', False, clone(d, mod('type-name'), name=d.name + 'x')))
@@ -134,6 +137,8 @@ def mutants_of(d, idx):
         n.variants = [Variant(v.name, v.kind, [(fn, ft.subst({p.name: Pm(p.name) for p in d.tparams},
                                                              {**{c.name: c.name for c in d.cparams}, old: new})) for (fn, ft) in v.fields])
                       for v in n.variants]
+        if n.order:
+            n.order = [new if x == old else x for x in n.order]
         out.append(('const-name', False, n))
     # variants
     if d.kind == 'enum':
